@@ -384,8 +384,17 @@ def _has_bool_number_confusion(a: Any, b: Any) -> bool:
     return a == b and isinstance(a, bool) != isinstance(b, bool)
 
 
+def essence_is_about_the_object(tier: str, stats: Stats) -> list[Violation]:
+    """The essence of an object (and what is stored / fetched as its last-handled state) is a function of THAT object and the configuration:
+    it does not depend on which other objects the same long-lived storage has served before (a ReplicaSet of a Deployment, an object that
+    carries another Kopf-based operator's marker). The differential search lives in C16 (one instance vs. fresh ones); here it runs on the
+    diff-base operations only."""
+    from kv.checks.c16 import sharing_check
+    return sharing_check(tier, stats, prop='C04', only=('base-store', 'base-fetch', 'base-build'))
+
+
 def all_violations(tier: str, stats: Stats) -> list[Violation]:
-    return own_writes(tier, stats) + completeness(tier, stats) + diff_laws(tier, stats)
+    return own_writes(tier, stats) + completeness(tier, stats) + diff_laws(tier, stats) + essence_is_about_the_object(tier, stats)
 
 
 # ---- (v) the same in vivo: the closed loop ---------------------------------------------------------------
